@@ -3,10 +3,13 @@ package c10
 import (
 	"encoding/json"
 	"fmt"
+	"net/http"
+	"sort"
 	"strings"
 
 	"github.com/caddyserver/caddy/v2/caddyconfig"
 	_ "github.com/caddyserver/caddy/v2/caddyconfig/httpcaddyfile"
+	_ "github.com/caddyserver/caddy/v2/modules/caddyhttp/reverseproxy/forwardauth"
 
 	"verif/harness/internal/core"
 )
@@ -130,8 +133,18 @@ func strs(v any) []string {
 }
 
 func (p *prop) runCF(f []string) core.Outcome {
-	if len(f) != 6 || (f[5] != "g" && f[5] != "t") {
+	if (len(f) != 6 && len(f) != 7) || (f[5] != "g" && f[5] != "t") {
 		return core.Outcome{Impl: "bad-op"}
+	}
+	// dir (optional 6th field): r reverse_proxy | a forward_auth | p php_fastcgi — the wrappers build a reverse_proxy
+	// handler, pre-fill it and hand the remaining subdirectives to reverse_proxy's own parser; the answer then ends in
+	// " pre=<.|hex,…>": the request header fields (sorted) the wrapper pre-filled (everything set besides X-Client)
+	dir := "r"
+	if len(f) == 7 {
+		dir = f[6]
+		if dir != "r" && dir != "a" && dir != "p" {
+			return core.Outcome{Impl: "bad-op"}
+		}
 	}
 	targeted := f[5] == "t"
 	srvTP, ok1 := parseLines(f[1])
@@ -169,7 +182,14 @@ func (p *prop) runCF(f []string) core.Outcome {
 	if targeted {
 		sb.WriteString("http://:8443 {\n\trespond ok\n}\n")
 	}
-	sb.WriteString(":80 {\n\treverse_proxy 127.0.0.1:9 {\n")
+	switch dir {
+	case "a":
+		sb.WriteString(":80 {\n\tforward_auth 127.0.0.1:9 {\n\t\turi /auth\n")
+	case "p":
+		sb.WriteString(":80 {\n\tphp_fastcgi 127.0.0.1:9 {\n")
+	default:
+		sb.WriteString(":80 {\n\treverse_proxy 127.0.0.1:9 {\n")
+	}
 	for _, l := range rpTP {
 		sb.WriteString("\t\ttrusted_proxies " + strings.Join(l, " ") + "\n")
 	}
@@ -241,16 +261,50 @@ func (p *prop) runCF(f []string) core.Outcome {
 		rpR = []string{}
 	}
 	up := ""
+	pre := []string{}
+	touched := []string{} // every request header field some operation of the adapted handler names
 	if hs, ok := rp["headers"].(map[string]any); ok {
 		if rq, ok := hs["request"].(map[string]any); ok {
 			if set, ok := rq["set"].(map[string]any); ok {
 				if v := strs(set["X-Client"]); len(v) == 1 {
 					up = v[0]
 				}
+				for n := range set {
+					if n != "X-Client" {
+						pre = append(pre, n)
+					}
+				}
+			}
+			for op, v := range rq {
+				switch t := v.(type) {
+				case map[string]any:
+					for n := range t {
+						touched = append(touched, n)
+					}
+				case []any:
+					touched = append(touched, strs(t)...)
+				default:
+					touched = append(touched, "?"+op)
+				}
 			}
 		}
 	}
+	sort.Strings(pre)
 	out.Impl = fmt.Sprintf("srv=%s strict=%s cih=%s rp=%s up=%s", srvR, strict, hexList(strs(srv["client_ip_headers"]), "nil"), hexList(rpR, "nil"), core.Hex(up))
+	if len(f) == 7 {
+		out.Impl += " pre=" + hexList(pre, ".")
+		out.Tags = append(out.Tags, "cf:dir="+dir)
+		// the wrapper hands the auth backend / the PHP application the forwarding fields reverse_proxy computes: no
+		// operation of the adapted handler may name one of them (the operator wrote none here)
+		for _, n := range touched {
+			for _, fw := range fwdNames {
+				if http.CanonicalHeaderKey(n) == fw {
+					out.Failures = append(out.Failures, core.Failure{Class: "caddyfile-wrapper-touches-forwarding-field",
+						What: fmt.Sprintf("directive %s: the adapted reverse_proxy handler has a request header operation on %q", dir, n)})
+				}
+			}
+		}
+	}
 	if targeted {
 		// the options were written for :8443 only: the :80 server must not have received any of them
 		_, hasTP := rpSrv["trusted_proxies"]
@@ -327,6 +381,10 @@ func genCF(r *core.Rand) string {
 	if r.Chance(9, 10) && strict == "x" {
 		strict = "1"
 	}
-	return fmt.Sprintf("cf %s %s %s %s %s", linesField(lines(cfRangeTokens, 2, 3)), strict,
+	line := fmt.Sprintf("cf %s %s %s %s %s", linesField(lines(cfRangeTokens, 2, 3)), strict,
 		linesField(lines(cfHeaderTokens, 2, 3)), linesField(lines(cfRangeTokens, 2, 3)), r.Pick([]string{"g", "g", "t"}))
+	if r.Chance(1, 2) {
+		line += " " + r.Pick([]string{"a", "p", "a", "p", "r"})
+	}
+	return line
 }
